@@ -166,7 +166,7 @@ func c16Finalise(c *fw.Ctx, i int) {
 	}
 	defer stub.Close()
 	conf := srv.Conf{RtmpGop: 1 + r.Intn(2), Flv: true, FlvGop: 1, Ts: true, TsGop: 1, Hls: true, HlsFragMs: 1000, HlsFragNum: 4000, HlsDelThr: 4000, HlsCleanup: 0,
-		Rtsp: true, RecFlv: true, RecTs: true, Api: true, PushAddrs: []string{stub.Addr}, MergeWrite: []int{0, 0, 2048}[r.Intn(3)]}
+		Rtsp: true, RecFlv: true, RecTs: true, Api: true, PushAddrs: []string{stub.Addr}, MergeWrite: []int{0, 0, 2048}[r.Intn(3)], HlsHttpsOnly: i%6 == 1}
 	s, err := srv.Start(conf, root)
 	if err != nil {
 		c.Inconclusive("server start: %v", err)
